@@ -100,6 +100,31 @@ func Escape(rbsp []byte) []byte {
 	return out
 }
 
+// EscapeFinal is Escape for a complete NAL unit payload (§7.4.1, last
+// paragraph): when the data ends in a cabac_zero_word (0x0000) a final 03 is
+// appended so that the NAL unit does not end in a zero byte. The 03 is only
+// appended when the escaped stream ends in two zero bytes that no escape
+// separates (only then is the appended byte an emulation prevention byte for a
+// decoder); appended tells whether that happened.
+func EscapeFinal(rbsp []byte) (out []byte, appended bool) {
+	out = Escape(rbsp)
+	zeros := 0
+	for _, b := range rbsp {
+		if zeros >= 2 && b <= 3 {
+			zeros = 0
+		}
+		if b == 0 {
+			zeros++
+		} else {
+			zeros = 0
+		}
+	}
+	if zeros >= 2 {
+		return append(out, 3), true
+	}
+	return out, false
+}
+
 // Unescape removes emulation prevention bytes: a 03 that follows two zero
 // bytes is dropped.
 func Unescape(ebsp []byte) []byte {
